@@ -542,7 +542,7 @@ def _get_root(fun, start, end, tol=0.01):
 
     if fx_0 * fx_1 > 0:
         # no sign change at the end points: the crossing is within rounding of the closer one
-        return x_1
+        return float(x_1)
     x_n = optimize.brentq(fun, x_0, x_1)
     return x_n
 
